@@ -32,13 +32,32 @@ def load_known():
     return out
 
 
-def case_split_equal(a, b, max_conds=4):
-    """equality by case analysis over the (at most ``max_conds``) conditions of conditional sub-terms that mention no loop variable"""
+def pointwise_equal(a, b, free=()):
+    """two element-wise definitions over the same range are equal when their element bodies are: the body is compared with the element variable free, so conditions on
+    that variable can be case-split (for one element the condition holds or it does not).  Only applied when no inner binder ranges over the same key"""
+    if a == b:
+        return True
+    if a is None or b is None:
+        return False
+    if a[0] == b[0] and a[0] in ('tuple', 'list') and len(a) == 2 and len(b) == 2 and len(a[1]) == len(b[1]):
+        return all(pointwise_equal(x, y, free) for x, y in zip(a[1], b[1]))
+    if a[0] == 'map' and b[0] == 'map' and len(a) == 3 and len(b) == 3 and a[1] == b[1]:
+        inner = [x for t in (a[2], b[2]) for x in T.walk(t) if x[0] in ('map', 'filtermap', 'concatmap', 'loopout') and len(x) > 1 and x[1] == a[1]]
+        if inner:
+            return False
+        lvs = {x for t in (a[2], b[2]) for x in T.walk(t) if x[0] == 'lv' and x[1] == a[1] and x[2] == len(free)}
+        return case_split_equal(a[2], b[2], allowed=tuple(free) + tuple(lvs)) or pointwise_equal(a[2], b[2], tuple(free) + tuple(lvs))
+    return False
+
+
+def case_split_equal(a, b, max_conds=4, allowed=()):
+    """equality by case analysis over the (at most ``max_conds``) conditions of conditional sub-terms that mention no loop variable (or only the ``allowed`` ones,
+    which the caller holds fixed)"""
     import itertools
     conds = []
     for t in (a, b):
         for x in T.walk(t):
-            if x[0] == 'gamma' and x[1][0] != 'const' and not any(y[0] == 'lv' for y in T.walk(x[1])):
+            if x[0] == 'gamma' and x[1][0] != 'const' and not any(y[0] == 'lv' and y not in allowed for y in T.walk(x[1])):
                 c = x[1][1] if x[1][0] == 'not' else x[1]
                 if c not in conds:
                     conds.append(c)
@@ -46,6 +65,11 @@ def case_split_equal(a, b, max_conds=4):
         return False
     for vals in itertools.product((T.TRUE, T.FALSE), repeat=len(conds)):
         m = dict(zip(conds, vals))
+        # a condition can contain another one (the rewrite is bottom-up): also key it by what it looks like once the inner ones are decided
+        for c_ in sorted(conds, key=lambda t_: len(str(t_))):
+            c2 = T.subst(c_, lambda y, m_=dict(m): m_.get(y) if y != c_ else None)
+            if c2 != c_ and c2[0] != 'const':
+                m.setdefault(c2, m[c_])
 
         def f(y):
             if y in m:
@@ -95,6 +119,10 @@ class Report:
         if impl is not None and spec is not None and case_split_equal(impl, spec):
             # the same value under every valuation of the loop-independent conditions both terms branch on: `f(a if c else b)` and
             # `f(a) if c else f(b)` are one definition written with the branch at different depths
+            self.ok(rule, instance, site, found=impl)
+            return True
+        if impl is not None and spec is not None and pointwise_equal(impl, spec):
+            # element-wise definitions over the same range whose element bodies agree under every valuation of the per-element conditions
             self.ok(rule, instance, site, found=impl)
             return True
         # A definitional rule certifies that the code is an instance of the documented definition.  A differing
